@@ -4,6 +4,7 @@ import ast
 from ..core import AnalysisError, u, walk_local
 from ..lib import construct, returns_of
 from .wrapper import WrapperModel
+from .common import module_has_no_state
 
 AUG = 'utils.augment_exception_message_and_reraise'
 
@@ -13,6 +14,8 @@ def run(ctx):
   ctx.assume('T5')
   au = ctx.func(AUG)
   con = construct(au)
+  module_has_no_state(ctx, 'C17.subclass', 'utils', 'the proxy class must be derived from the class of *this* exception; proxies remembered per '
+                      'class name are wrong for a second class with the same qualified name')
   exc = au.params[0]
   proxy = au.nested.get('ExceptionProxy')
   raises = [n for n in walk_local(au.node) if isinstance(n, ast.Raise)]
@@ -78,6 +81,14 @@ def run(ctx):
             'fields of builtin exceptions (errno, filename, value, name, ...) are data descriptors of the base class and are found by normal '
             'lookup on the freshly created, argument-less proxy, so they read () / None instead of the original\'s values',
             au.loc(proxy.methods['__getattr__'].node) if has_gattr else au.loc(proxy.node), instance='__getattr__-only')
+  ga = proxy.methods.get('__getattr__') or proxy.methods.get('__getattribute__')
+  if ga is not None:
+    rv = [r.value for r in returns_of(ga) if r.value is not None]
+    name_p = ga.params[1] if len(ga.params) > 1 else None
+    okf = bool(rv) and all(isinstance(v, ast.Call) and u(v.func) == 'getattr' and len(v.args) == 2 and u(v.args[0]) == exc and u(v.args[1]) == name_p for v in rv)
+    ctx.check(okf, 'C17.forward-fallback', pcon, 'attributes not found on the proxy are read from the original with getattr(original, name)',
+              'the fallback lookup is `%s`, not getattr(original, name): attributes kept in __slots__, properties, class attributes and the '
+              'attributes of an already proxied (nested) exception are no longer readable' % [u(v) for v in rv], ga.loc(), instance='getattr')
   # ---- C17.constructible
   ctor = [c for c in walk_local(au.node) if isinstance(c, ast.Call) and u(c.func) == proxy.name]
   zero = [c for c in ctor if not c.args and not c.keywords]
